@@ -268,7 +268,7 @@ func main() {
 					}
 				}
 			}
-			if !wasFailing {
+			if !wasFailing && pinnedAllPresent(p) {
 				// The program as written is clean. A slip inside (or at the seam of) a helper that a later edit cut out
 				// is invisible to rules that read the caller only: definite violations of the most expanded form count.
 				for ai := len(inls) - 1; ai >= 0; ai-- {
